@@ -551,8 +551,9 @@ Inductive gop :=
 | GLookup (ch : Z) (mp : presentation) (vs : option Z)
 | GFilter (flags : Z)
 | GHasImages
+| GImage        (* Font::lookup_glyph_image on a font whose image tables have no strikes / documents *)
 | GShape.       (* Font::shape: looks up DOTTED_CIRCLE with (NotRequired, None) before anything else *)
-Inductive gres := GGlyph (g vs : Z) | GUnit | GBool (b : bool).
+Inductive gres := GGlyph (g vs : Z) | GUnit | GBool (b : bool) | GNoImage.
 
 Definition g_step (fs : font_static) (st : font_state) (op : gop) : outcome gres * font_state :=
   match op with
@@ -561,6 +562,7 @@ Definition g_step (fs : font_static) (st : font_state) (op : gop) : outcome gres
       (p <- r ;; Ok (GGlyph (fst p) (snd p)), st')
   | GFilter flags => (Ok GUnit, set_embedded_image_filter st flags)
   | GHasImages => let '(b, st') := has_embedded_images fs st in (Ok (GBool b), st')
+  | GImage => let '(r, st') := embedded_images fs st in (_ <- r ;; Ok GNoImage, st')   (* `self.embedded_images()?` *)
   | GShape =>
       let '(r, st') := lookup_glyph_index fs st DOTTED_CIRCLE NotRequired None in
       (_ <- r ;; Ok GUnit, st')
@@ -593,6 +595,7 @@ Definition g_spec (fs : font_static) (filter : Z) (op : gop) : outcome gres :=
   | GLookup ch mp vs => let '(g, u) := glyph_spec fs filter ch mp vs in Ok (GGlyph g u)
   | GFilter _ => Ok GUnit
   | GHasImages => Ok (GBool (images_spec fs filter))
+  | GImage => _ <- images_load fs filter ;; Ok GNoImage
   | GShape => Ok GUnit
   end.
 
